@@ -5,6 +5,7 @@ go 1.23
 require (
 	github.com/anishathalye/porcupine v1.3.0
 	github.com/welllog/golib v0.0.0
+	golang.org/x/tools v0.29.0
 )
 
 replace github.com/welllog/golib => /repo
